@@ -365,9 +365,11 @@ EbErrorType dec_system_resource_init(EbDecHandle *dec_handle_ptr, TilesInfo *til
     /* Use a scratch memory so that the memory allocated within
        init_dec_mod_ctxt reallocated when required */
 
-    DecModCtxt **dec_mod_ctxt_arr;
-    EB_MALLOC_DEC(
-        DecModCtxt **, dec_mod_ctxt_arr, num_lib_threads * sizeof(DecModCtxt *), EB_N_PTR);
+    // scratch array, released at the end of this function: it must not be registered in the decoder's
+    // memory map (svt_av1_dec_deinit frees every registered pointer, which freed it a second time)
+    DecModCtxt **dec_mod_ctxt_arr = (DecModCtxt **)malloc((num_lib_threads ? num_lib_threads : 1) * sizeof(DecModCtxt *));
+    if (dec_mod_ctxt_arr == NULL)
+        return EB_ErrorInsufficientResources;
 
     for (uint32_t i = 0; i < num_lib_threads; i++) {
         init_dec_mod_ctxt(dec_handle_ptr, (void **)&dec_mod_ctxt_arr[i]);
